@@ -150,10 +150,12 @@ CLAIMED["C09"] = ("DESIGN.md §4 C09",
     "The real node_to_ref -> CellRange.__str__ -> xl_rowcol_to_cell chain is run for symbolic host cells and stored "
     "offsets/coordinates anywhere inside the table limits with all absolute-flag combinations (single cells; rectangles in "
     "the row windows [0,100) and around 0x7FFF / 0xFFFF in the quick tier, all 10^6 rows in the thorough tier), "
-    "and the printed text is read back by an independent A1 parser; cross-table references over 3 sheets x 2+2+1 tables with "
-    "symbolic names resolve to exactly the stored table.",
-    "trusted: pysym; formula nodes are attribute bags; model stub for names; no header labels; outside: named (header) "
-    "references, row/column spans, uuid map from archives, cache invalidation history")
+    "whole-row / whole-column spans and single-axis references for every row / column), and the printed text is read back "
+    "by an independent A1 parser; cross-table references over 3 sheets x 2+2+1 tables with symbolic names resolve to exactly the "
+    "stored table; whole-column references by header label (real ScopedNameRefCache) over 3 tables x 2 labelled columns with six "
+    "symbolic labels resolve - narrower scopes shadowing wider ones - to exactly the stored column.",
+    "trusted: pysym; formula nodes are attribute bags; model stub for names and header cells; outside: row labels, labels with "
+    "operator characters or quotes, uuid map from archives, cache invalidation history")
 
 CLAIMED["C15"] = ("DESIGN.md §4 C15 (partial)",
     "Borders only: through the real Table.set_cell_border, model.set_cell_border, cell_for_stroke and CellBorder "
